@@ -18,11 +18,19 @@ RULE = (
     "distinct = distinct (tree, verdicts) digests"
 )
 
+# column-free predicates that are NOT literals: constant, yet neither foldable by as_trivial() nor "invariant"
+P_CONST_FALSE = ("gt", ("lit", 5), ("lit", 7))
+P_CONST_TRUE = ("lt", ("lit", 5), ("lit", 7))
 IT_EXTRA = (
+    ("sel", P_CONST_FALSE),
+    ("sel", P_CONST_TRUE),
     ("chain", ("self", ("slice", 0, 0))),
     ("chain", ("self", ("sel", ("gt", ("ref", "a"), ("lit", 99)))), True),
     ("sel", ("in_range", ("ref", "a"), (3, 0, -1))),("chain", ("D0",)), ("chain", ("Eloose",)), ("chain", ("L",)), ("chain", ("L",), True))
 SQL_EXTRA = (
+    ("sel", P_CONST_FALSE),
+    ("sel", P_CONST_TRUE),
+    ("join", ("K",), P_CONST_FALSE, False),
     ("join", ("K", ("proj", ("d",))), ("gt", ("ref", "d"), ("lit", 100)), False),
     ("join", ("K", ("proj", ("d",))), None, False),
     ("sel", ("in_range", ("ref", "a"), (3, 0, -1))),
@@ -47,6 +55,7 @@ MULTI16 = (
     ("sel", spaces.P_A_GT_1),
     ("sel", ("gt", ("ref", "a"), ("lit", 99))),
     ("sel", spaces.P_FALSE),
+    ("sel", P_CONST_FALSE),
     ("dedup",),
     ("slice", 1, 3),
     ("slice", 6, 8),
